@@ -1137,6 +1137,7 @@ function parse_attribute_variables(query_text, prefix, column_names, column_name
     // The purpose of this algorithm is to minimize number of variables in varibale_map to improve performance, ideally it should be only variables from the query
 
     assert(prefix === 'a' || prefix === 'b');
+    query_text = separate_string_literals(query_text)[0]; // Text inside string literals is not a variable
     let rgx = new RegExp(`(?:^|[^_a-zA-Z0-9])${prefix}\\.([_a-zA-Z][_a-zA-Z0-9]*)`, 'g');
     let matches = get_all_matches(rgx, query_text);
     let column_names_from_query = matches.map(v => v[1]);
